@@ -45,5 +45,12 @@ MUTATIONS = [
     ("is-cif-steers-model", "main.py", '    _LOGGER.info("Applying force field to biomolecule states.")\n    biomolecule.set_states()',
      '    _LOGGER.info("Applying force field to biomolecule states.")\n    if is_cif:\n        biomolecule.remove_hydrogens()\n    biomolecule.set_states()', "fire"),
     ("suffix-case-sensitive", "io.py", 'if path.suffix.lower() == ".cif":', 'if path.suffix == ".cif":', "fire"),
+    ("suffix-endswith", "io.py", 'if path.suffix.lower() == ".cif":', 'if path.name.lower().endswith(".cif"):', "silent"),
+    ("suffix-substring", "io.py", 'if path.suffix.lower() == ".cif":', 'if ".cif" in str(path).lower():', "fire"),
+    ("flag-computed-first", "io.py", '    is_cif = False\n    if path.suffix.lower() == ".cif":\n        pdblist, errlist = cif.read_cif(input_file)\n        is_cif = True',
+     '    is_cif = path.suffix.lower() == ".cif"\n    if is_cif:\n        pdblist, errlist = cif.read_cif(input_file)', "silent"),
+    ("flag-not-set", "io.py", '        pdblist, errlist = cif.read_cif(input_file)\n        is_cif = True', '        pdblist, errlist = cif.read_cif(input_file)', "fire"),
+    ("cif-records-dropped-on-errors", "io.py", '        _LOGGER.error(errlist)\n    return pdblist, is_cif',
+     '        _LOGGER.error(errlist)\n        if is_cif:\n            pdblist = pdblist[:-1]\n    return pdblist, is_cif', "fire"),
 ]
 MUTATIONS = [m for m in MUTATIONS if m[0] != "label-seq-id"]
